@@ -197,6 +197,10 @@ fn main() {
         }
     }
     let seed = cli.seed;
+    let dict = vmon::dict::harvest("/repo", &["dasp_sample"]);
+    rep.oblige("source_literals_harvested", 10);
+    rep.hit_n("source_literals_harvested", dict.ints.len() as u64);
+    rep.note(format!("input dictionary: {} integer and {} float literals harvested from {} source files of dasp_sample", dict.ints.len(), dict.floats.len(), dict.files));
     let reps = vmon::par_for(
         cli.threads,
         jobs.len() as u64,
@@ -218,7 +222,12 @@ fn main() {
             }
             Job::Structured(pi) => {
                 let p = &pairs[pi];
-                let vals = spec::structured_values(p.src(), 4096, 64);
+                let mut vals = spec::structured_values(p.src(), 4096, 64);
+                // every numeric literal of the crate's own source (and its neighbours / re-based
+                // twins) as an input: a special case keyed on one magic value is spelled out there
+                let dv = dict.ints_for(p.src().min(), p.src().max(), p.src().bits);
+                rep.count("dictionary_values", dv.len() as u64);
+                vals.extend(dv);
                 p.check_list(&vals, rep);
                 rep.count("structured_values", vals.len() as u64);
                 if rep.want_sample() {
